@@ -73,10 +73,17 @@ def terminators():
         ('empty-message', ['raise ValueError("")'], 'ValueError', ['ValueError', 'Exception', 'BaseException', 'object'], 0),
         ('assert-empty-message', ['assert 1 == 2, ""'], 'AssertionError', ['AssertionError', 'Exception', 'BaseException', 'object'], 0),
         ('sys-exit-empty', ['import sys', 'sys.exit("")'], 'SystemExit', ['SystemExit', 'BaseException', 'object'], 1),
+        # raised by the student's own code about ANOTHER text: the failure is on the student's raising line
         ('syntaxerror-foreign-file', ['raise SyntaxError("bad", ("foreign.py", 1, 1, "x"))'], 'SyntaxError',
-         ['SyntaxError', 'Exception', 'BaseException', 'object'], None),
+         ['SyntaxError', 'Exception', 'BaseException', 'object'], 0),
         ('syntaxerror-multiline-foreign', ['raise SyntaxError("bad", ("foreign.py", 1, 1, "x", 2, 3))'], 'SyntaxError',
-         ['SyntaxError', 'Exception', 'BaseException', 'object'], None),
+         ['SyntaxError', 'Exception', 'BaseException', 'object'], 0),
+        ('syntaxerror-foreign-far-line', ['z = 0', 'raise SyntaxError("bad entry", ("size.cfg", 40, 2, "a = = b"))'], 'SyntaxError',
+         ['SyntaxError', 'Exception', 'BaseException', 'object'], 1),
+        # the debugger's own "quit" exception is an ordinary Exception for a student program
+        ('raise-bdbquit', ['import bdb', 'raise bdb.BdbQuit()'], 'BdbQuit', ['BdbQuit', 'Exception', 'BaseException', 'object'], 1),
+        # a class without a name
+        ('user-empty-class-name', ['E = type("", (Exception,), {})', 'raise E("x")'], '', ['', 'Exception', 'BaseException', 'object'], 1),
         ('user-keyerror-sub', ['class MyKey(KeyError):', '    pass', 'raise MyKey("k")'], 'KeyError',
          ['MyKey', 'KeyError', 'LookupError', 'Exception', 'BaseException', 'object'], 2),
     ]
@@ -130,6 +137,8 @@ def build_cases(rng, tier):
         entries = ['run', 'call', 'evaluate', 'import'] if tier != 'quick' or rng.random() < 0.45 or not tag.startswith('raise:') else ['run']
         for entry in entries:
             tracer = rng.choice([None, None, 'native', 'coverage', 'calls', 'none'])
+            if tag in ('raise-bdbquit', 'user-exception', 'zero-division'):
+                tracer = {'run': 'calls', 'call': 'native', 'evaluate': 'calls', 'import': 'coverage'}[entry]
             if entry == 'run':
                 code, base = program(lines)
                 files = {'answer.py': code}
@@ -165,6 +174,21 @@ def build_cases(rng, tier):
                       'steps': [{'entry': 'next_section', 'setup': True}, {'entry': 'run'}],
                       'cls': cls, 'mro': mro_of(cls) if where == 'exec' else None, 'where': where, 'line': line, 'raise_file': 'answer.py',
                       'skip_model': True})
+    # the same failures with the time limit on (the code runs in a worker thread), incl. inside an imported student file
+    two_arg = 'class E(Exception):\n    def __init__(self, a, b):\n        super().__init__(a, b)\n'
+    for tag, main_code, helper_code, cls, where, line, rfile in (
+            ('threaded:exit-in-helper', 'import helper\nprint(helper)\n', 'import sys\nsys.exit()\n', 'SystemExit', 'exec', 2, 'helper.py'),
+            ('threaded:two-arg-exception-in-helper', 'import helper\n', two_arg + 'raise E(1, 2)\n', 'E', 'exec', 4, 'helper.py'),
+            ('threaded:syntax-error-in-helper', 'x = 1\nimport helper\n', 'y = 2\nx = = 1\n', 'SyntaxError', 'compile', 2, 'helper.py'),
+            ('threaded:two-arg-exception', two_arg + 'raise E(1, 2)\n', None, 'E', 'exec', 4, 'answer.py'),
+            ('threaded:zero-division', 'x = 1\ny = x / 0\n', None, 'ZeroDivisionError', 'exec', 2, 'answer.py'),
+            ('threaded:sys-exit', 'import sys\nsys.exit(3)\n', None, 'SystemExit', 'exec', 2, 'answer.py')):
+        files = {'answer.py': main_code}
+        if helper_code is not None:
+            files['helper.py'] = helper_code
+        mro = {'E': ['E', 'Exception', 'BaseException', 'object']}.get(cls) or (mro_of(cls) if where == 'exec' else None)
+        cases.append({'tag': tag, 'entry': 'run', 'files': files, 'steps': [{'entry': 'run', 'threaded': True}],
+                      'cls': cls, 'mro': mro, 'where': where, 'line': line, 'raise_file': rfile, 'skip_model': True})
     # an epilogue (run(after=...)) longer than the student's file, calling a student function that raises
     cases.append({'tag': 'after-epilogue', 'entry': 'run', 'files': {'answer.py': 'def boom():\n    raise ValueError("late")\n'},
                   'steps': [{'entry': 'runafter', 'after': '\n' * 12 + 'boom()\n'}],
@@ -279,6 +303,12 @@ def oracle_c05(case, steps):
 
 
 def oracle_c04(case, steps):
+    if case['tag'].startswith('tamper:'):
+        # whatever the student does to the patched objects, nothing escapes into the grader
+        for i, ob in enumerate(steps):
+            if ob['escaped']:
+                return ('escapes:%s' % case['tag'], '%s: step %d (%s) let %s escape into the grader' % (case['tag'], i, case['steps'][i]['entry'], ob['escaped']))
+        return None
     if case['entry'] in ('history', 'timeout'):
         return None
     ob = steps[-1]
